@@ -256,6 +256,14 @@ func (p *uPacketPacker) appendInitialPacketPayload(buffer *packetBuffer, header 
 		}
 	}
 
+	// [UQUIC] RFC 9001 5.4.2: the header protection sample starts 4 bytes after the start of the
+	// packet number, so packet number + payload must be at least 4 bytes. A flight builder may
+	// plan a datagram that is a lone PING; pad it the way appendLongHeaderPacket does, or the
+	// sample reaches past the packet and every receiver discards it.
+	if pnLen+protocol.ByteCount(len(uPayload)) < 4 {
+		uPayload = append(uPayload, make([]byte, 4-pnLen-protocol.ByteCount(len(uPayload)))...)
+	}
+
 	header.Length = pnLen + protocol.ByteCount(sealer.Overhead()) + protocol.ByteCount(len(uPayload))
 
 	startLen := len(buffer.Data)
